@@ -177,7 +177,9 @@ func (c Case) run(threads int) (result, error) {
 				return r, ferr
 			}
 			defer os.Remove(f.Name())
-			raw, err := support.TBE(rt, ch, threads, true, true, true, 0.3, f, nil)
+			// distance cutoff 0.9: moved-taxa tables are filled for branches of depth >= 3 (with the
+			// default 0.3 only branches of depth >= 5 count, which small trees rarely have)
+			raw, err := support.TBE(rt, ch, threads, true, true, true, 0.9, f, nil)
 			f.Close()
 			r.err = err != nil
 			if err == nil {
@@ -272,7 +274,7 @@ func check(c Case) error {
 }
 
 func genCase(t *rapid.T, thorough bool) Case {
-	o := gen.Opts{MinTips: 4, MaxTips: 12, Rooted: 0, MaxDeg: 4, Lens: gen.All, LenVals: gen.DyadicZ}
+	o := gen.Opts{MinTips: 4, MaxTips: 12, BigTips: 24, Rooted: 0, MaxDeg: 4, Lens: gen.All, LenVals: gen.DyadicZ}
 	base := gen.Tree(t, o)
 	c := Case{Func: rapid.SampledFrom([]string{"compare", "weighted", "fbp", "tbe"}).Draw(t, "func"), Ref: base,
 		Threads: rapid.SampledFrom([]int{2, 3, 4, 8, 16, 64}).Draw(t, "threads"),
